@@ -77,6 +77,21 @@ def _profile(aa, coef, extra=None):
             g = self._rec(grid)
             return [_f2(coef, g), _f2(coef[::-1], g)]
 
+        @d.to_grid
+        def grid_as_native_structure_from(self, grid, *args, **kwargs):
+            # a function that works in the native frame and hands back a natively stored Grid2D on the input's own mask
+            vals = _f2(coef, self._rec(grid))
+            nat = np.zeros(grid.mask.shape + (2,))
+            nat[~np.asarray(grid.mask, dtype=bool)] = vals
+            return aa.Grid2D(values=nat, mask=grid.mask, store_native=True)
+
+        @d.to_array
+        def array_as_native_structure_from(self, grid, *args, **kwargs):
+            vals = _f1(coef, self._rec(grid))
+            nat = np.zeros(grid.mask.shape)
+            nat[~np.asarray(grid.mask, dtype=bool)] = vals
+            return aa.Array2D(values=nat, mask=grid.mask, store_native=True)
+
         @d.to_vector_yx
         def vector_from(self, grid, *args, **kwargs):
             return _f2(coef, self._rec(grid))
@@ -152,6 +167,9 @@ def grid2d_containers(mask, pixel_scales, origin, coef, custom):
         msg = _same_mask(res, grid, mask, pixel_scales, origin)
         if msg:
             return label + ": " + msg
+        raw = np.asarray(res)
+        if raw.shape != want.shape:
+            return "%s: the container holds an array of shape %r, want one entry per unmasked pixel in slim order %r" % (label, raw.shape, want.shape)
         got = np.asarray(res.slim, dtype=float)
         if got.shape != want.shape:
             return "%s: %r entries, want one per unmasked pixel %r" % (label, got.shape, want.shape)
@@ -184,6 +202,10 @@ def grid2d_containers(mask, pixel_scales, origin, coef, custom):
         msg = one(res[i], aa.Grid2D, wants[i], "to_grid list[%d]" % i)
         if msg:
             return msg
+    msg = one(p.grid_as_native_structure_from(grid), aa.Grid2D, _f2(coef, coords), "to_grid (function returns a natively stored Grid2D on the input mask)") or \
+        one(p.array_as_native_structure_from(grid), aa.Array2D, _f1(coef, coords), "to_array (function returns a natively stored Array2D on the input mask)")
+    if msg:
+        return msg
     msg = one(p.vector_from(grid), aa.VectorYX2D, _f2(coef, coords), "to_vector_yx")
     if msg:
         return msg
